@@ -852,52 +852,6 @@ theorem or_shift12 (x st : Nat) : x ||| (st <<< 12) = 4096 * (x / 4096 ||| st) +
   have a2 : st * 2 ^ 12 % 4096 = 0 := by omega
   rw [a1, a2]; simp
 
-theorem serialize_stage (e : Entry) (k : Bytes) (st : Nat) (hf : e.flags < 65536) (hst : st ≤ 3) :
-    entryStage (serialize e k st) = st := by
-  simp only [entryStage, serialize, flagStageMask, flagStageShift, clearBits]
-  have hfx : e.flags &&& 12288 = 4096 * (e.flags / 4096 &&& 3) := by
-    rw [and12]; simp
-  rw [hfx, or_shift12, and12, Nat.shiftRight_eq_div_pow]
-  have ha : e.flags / 4096 < 16 := by omega
-  have hle : e.flags / 4096 &&& 3 ≤ e.flags / 4096 := Nat.and_le_left
-  have a1 : (e.flags - 4096 * (e.flags / 4096 &&& 3)) / 4096 = e.flags / 4096 - (e.flags / 4096 &&& 3) := by omega
-  have a2 : (e.flags - 4096 * (e.flags / 4096 &&& 3)) % 4096 = e.flags % 4096 := by omega
-  rw [a1, a2]
-  have b1 : (4096 * (e.flags / 4096 - (e.flags / 4096 &&& 3) ||| st) + e.flags % 4096) / 4096
-      = (e.flags / 4096 - (e.flags / 4096 &&& 3) ||| st) := by omega
-  rw [b1]
-  have key : ∀ a, a < 16 → ∀ s, s ≤ 3 → ((a - (a &&& 3) ||| s) &&& 3) = s := by decide
-  have := key _ ha _ hst
-  simp only [show (12288 : Nat) / 4096 = 3 by decide, show (12288 : Nat) % 4096 = 0 by decide, this,
-    Nat.and_zero, Nat.add_zero]
-  omega
-
-theorem serialize_name (e : Entry) (k : Bytes) (st : Nat) : (serialize e k st).name = k := rfl
-
-theorem stageAt_vals : stageAt 0 = 1 ∧ stageAt 1 = 2 ∧ stageAt 2 = 3 ∧ stageAt 3 = 0 := by decide
-
-theorem flattenVal_normal_stage (k : Bytes) (e : Entry) (hf : e.flags < 65536) :
-    (flattenVal k (.normal e)).map (fun x => (x.name, entryStage x)) = [(k, 0)] := by
-  simp [flattenVal, stageAt_vals.2.2.2, serialize_stage e k 0 hf (by omega), serialize_name]
-
-theorem flattenVal_conflict_stages (k : Bytes) (a t o : Option Entry)
-    (ha : ∀ e, a = some e → e.flags < 65536) (ht : ∀ e, t = some e → e.flags < 65536)
-    (ho : ∀ e, o = some e → e.flags < 65536) :
-    (flattenVal k (.conflict a t o)).map (fun x => (x.name, entryStage x)) =
-      (a.map fun _ => (k, 1)).toList ++ (t.map fun _ => (k, 2)).toList ++ (o.map fun _ => (k, 3)).toList := by
-  simp only [flattenVal, stageAt_vals.1, stageAt_vals.2.1, stageAt_vals.2.2.1, List.map_append]
-  congr 1
-  · congr 1
-    · cases a with
-      | none => rfl
-      | some e => simp [serialize_stage e k 1 (ha e rfl) (by omega), serialize_name]
-    · cases t with
-      | none => rfl
-      | some e => simp [serialize_stage e k 2 (ht e rfl) (by omega), serialize_name]
-  · cases o with
-    | none => rfl
-    | some e => simp [serialize_stage e k 3 (ho e rfl) (by omega), serialize_name]
-
 /-! ### the lower-case extension defect -/
 
 theorem lowercase_ext_rejected (H : Bytes → Bytes)
@@ -999,5 +953,272 @@ theorem indexWrite_ok (H : Bytes → Bytes) (skipHash : Bool) {ver : Option Nat}
   unfold indexWrite writeIndexDict
   rw [hw]
   rfl
+
+theorem stageAt_vals : stageAt 0 = 1 ∧ stageAt 1 = 2 ∧ stageAt 2 = 3 ∧ stageAt 3 = 0 := by decide
+
+/-! ### rebuilding the dictionary -/
+
+def keys (d : Dict) : List Bytes := d.map (·.1)
+
+theorem dictGet_of_not_mem : ∀ {d : Dict} {k : Bytes}, k ∉ keys d → dictGet d k = none
+  | [], _, _ => rfl
+  | (k', v') :: r, k, h => by
+    have h1 : k' ≠ k := fun e => h (by simp [keys, e])
+    have h2 : k ∉ keys r := fun m => h (by simp only [keys, List.map_cons, List.mem_cons]; exact Or.inr m)
+    have := dictGet_of_not_mem h2
+    unfold dictGet at this ⊢
+    simp [List.find?, h1, this]
+
+theorem dictSet_of_not_mem : ∀ {d : Dict} {k : Bytes} (v : Val), k ∉ keys d → dictSet d k v = d ++ [(k, v)]
+  | [], _, _, _ => rfl
+  | (k', v') :: r, k, v, h => by
+    have h1 : k' ≠ k := fun e => h (by simp [keys, e])
+    have h2 : k ∉ keys r := fun m => h (by simp only [keys, List.map_cons, List.mem_cons]; exact Or.inr m)
+    simp [dictSet, h1, dictSet_of_not_mem v h2]
+
+theorem dictGet_append_self : ∀ {d : Dict} {k : Bytes} (v : Val), k ∉ keys d → dictGet (d ++ [(k, v)]) k = some v
+  | [], _, _, _ => by simp [dictGet]
+  | (k', v') :: r, k, v, h => by
+    have h1 : k' ≠ k := fun e => h (by simp [keys, e])
+    have h2 : k ∉ keys r := fun m => h (by simp only [keys, List.map_cons, List.mem_cons]; exact Or.inr m)
+    have := dictGet_append_self v h2
+    unfold dictGet at this ⊢
+    rw [List.cons_append, List.find?_cons_of_neg (by simpa using h1)]
+    exact this
+
+theorem dictSet_append_self : ∀ {d : Dict} {k : Bytes} (v v' : Val), k ∉ keys d →
+    dictSet (d ++ [(k, v)]) k v' = d ++ [(k, v')]
+  | [], _, _, _, _ => by simp [dictSet]
+  | (k', w) :: r, k, v, v', h => by
+    have h1 : k' ≠ k := fun e => h (by simp [keys, e])
+    have h2 : k ∉ keys r := fun m => h (by simp only [keys, List.map_cons, List.mem_cons]; exact Or.inr m)
+    simp [dictSet, h1, dictSet_append_self v v' h2]
+
+theorem addEntry_normal {acc : Dict} {x : Entry} {k : Bytes} (hname : x.name = k) (hs : entryStage x = 0)
+    (h : k ∉ keys acc) : addEntry acc x = .ok (acc ++ [(k, .normal x)]) := by
+  simp [addEntry, hs, readStageNormal, hname, dictSet_of_not_mem _ h]
+
+theorem addEntry_first {acc : Dict} {x : Entry} {k : Bytes} (hname : x.name = k)
+    (hs : entryStage x = 1 ∨ entryStage x = 2 ∨ entryStage x = 3) (h : k ∉ keys acc) :
+    addEntry acc x = .ok (acc ++ [(k,
+      if entryStage x = 1 then .conflict (some x) none none
+      else if entryStage x = 2 then .conflict none (some x) none else .conflict none none (some x))]) := by
+  have hn : ¬ (entryStage x = readStageNormal) := by simp only [readStageNormal]; omega
+  unfold addEntry
+  simp only [hn, if_false, hname, dictGet_of_not_mem h, readStageAncestor, readStageThis, readStageOther,
+    dictSet_of_not_mem _ h]
+  rcases hs with hs | hs | hs <;> simp [hs]
+
+theorem addEntry_next {acc : Dict} {x : Entry} {k : Bytes} {a t o : Option Entry} (hname : x.name = k)
+    (hs : entryStage x = 1 ∨ entryStage x = 2 ∨ entryStage x = 3) (h : k ∉ keys acc) :
+    addEntry (acc ++ [(k, .conflict a t o)]) x = .ok (acc ++ [(k,
+      if entryStage x = 1 then .conflict (some x) t o
+      else if entryStage x = 2 then .conflict a (some x) o else .conflict a t (some x))]) := by
+  have hn : ¬ (entryStage x = readStageNormal) := by simp only [readStageNormal]; omega
+  unfold addEntry
+  simp only [hn, if_false, hname, dictGet_append_self _ h, readStageAncestor, readStageThis, readStageOther,
+    dictSet_append_self _ _ h]
+  rcases hs with hs | hs | hs <;> simp [hs]
+
+/-- What one dictionary value looks like after the round trip; `none` when it contributes no entry
+(a `ConflictedIndexEntry` with no stage at all). -/
+def normVal (k : Bytes) : Val → Option (Bytes × Val)
+  | .normal e => some (k, .normal (normEntry (serialize e k 0)))
+  | .conflict a t o =>
+    if a.isNone ∧ t.isNone ∧ o.isNone then none
+    else some (k, .conflict (a.map fun e => normEntry (serialize e k 1)) (t.map fun e => normEntry (serialize e k 2))
+                            (o.map fun e => normEntry (serialize e k 3)))
+
+theorem foldAdd_append : ∀ (xs ys : List Entry) (acc : Dict),
+    foldAdd acc (xs ++ ys) = (match foldAdd acc xs with | .ok a => foldAdd a ys | .error e => .error e)
+  | [], _, _ => rfl
+  | x :: xs, ys, acc => by
+    simp only [List.cons_append, foldAdd]
+    cases addEntry acc x with
+    | error e => rfl
+    | ok a => exact foldAdd_append xs ys a
+
+theorem and_3 (x : Nat) : x &&& 3 = x % 4 := by
+  have := Nat.and_two_pow_sub_one_eq_mod x 2
+  simpa using this
+
+theorem or_mod4 (x y : Nat) : (x ||| y) % 4 = x % 4 ||| y % 4 := by
+  have := @Nat.or_mod_two_pow x y 2
+  simpa using this
+
+theorem stageOf_flags (f : Nat) : (f &&& 12288) >>> 12 = f / 4096 % 4 := by
+  rw [and12, Nat.shiftRight_eq_div_pow]
+  simp only [show (12288 : Nat) / 4096 = 3 by decide, show (12288 : Nat) % 4096 = 0 by decide, Nat.and_zero,
+    Nat.add_zero, and_3]
+  omega
+
+theorem serialize_stage (e : Entry) (k : Bytes) (st : Nat) (hst : st ≤ 3) :
+    entryStage (serialize e k st) = st := by
+  simp only [entryStage, serialize, flagStageMask, flagStageShift]
+  rw [stageOf_flags, or_shift12]
+  have hc : clearBits e.flags 12288 / 4096 % 4 = 0 := by
+    unfold clearBits
+    have hfx : e.flags &&& 12288 = 4096 * (e.flags / 4096 % 4) := by
+      rw [and12]; simp [and_3]
+    rw [hfx]; omega
+  have e1 : (4096 * (clearBits e.flags 12288 / 4096 ||| st) + clearBits e.flags 12288 % 4096) / 4096
+      = (clearBits e.flags 12288 / 4096 ||| st) := by omega
+  rw [e1, or_mod4, hc]
+  simp; omega
+
+theorem stage_normEntry {x : Entry} (hl : x.name.length < 4096) :
+    entryStage (normEntry x) = entryStage x := by
+  unfold entryStage
+  simp only [flagStageMask, flagStageShift]
+  rw [stageOf_flags, stageOf_flags, normFlags_eq hl]
+  unfold hiNibble
+  have e1 : 4096 * (x.flags / 4096 ||| if x.ext ≠ 0 then 4 else 0) / 4096 = (x.flags / 4096 ||| if x.ext ≠ 0 then 4 else 0) := by omega
+  rw [e1, or_mod4]
+  split <;> simp
+
+theorem foldAdd_flattenVal {acc : Dict} {k : Bytes} (val : Val) (hk : k ∉ keys acc) (hl : k.length < 4096) :
+    foldAdd acc ((flattenVal k val).map normEntry) = .ok (acc ++ (normVal k val).toList) := by
+  have hst : ∀ (e : Entry) (st : Nat), st ≤ 3 → entryStage (normEntry (serialize e k st)) = st := by
+    intro e st h
+    rw [stage_normEntry (by simpa [serialize] using hl), serialize_stage e k st h]
+  have hname : ∀ (e : Entry) (st : Nat), (normEntry (serialize e k st)).name = k := fun _ _ => rfl
+  cases val with
+  | normal e =>
+    simp only [flattenVal, stageAt_vals.2.2.2, List.map_cons, List.map_nil, foldAdd, normVal, Option.toList]
+    rw [addEntry_normal (hname e 0) (hst e 0 (by omega)) hk]
+  | conflict a t o =>
+    simp only [flattenVal, stageAt_vals.1, stageAt_vals.2.1, stageAt_vals.2.2.1, normVal]
+    cases a with
+    | none =>
+      cases t with
+      | none =>
+        cases o with
+        | none => simp [foldAdd]
+        | some eo =>
+          simp only [Option.map_none, Option.toList, List.nil_append, Option.map_some, List.map_cons,
+            List.map_nil, foldAdd]
+          rw [addEntry_first (hname eo 3) (Or.inr (Or.inr (hst eo 3 (by omega)))) hk]
+          simp [hst eo 3 (by omega)]
+      | some et =>
+        cases o with
+        | none =>
+          simp only [Option.map_none, Option.toList, List.nil_append, Option.map_some, List.map_cons,
+            List.map_nil, List.append_nil, foldAdd]
+          rw [addEntry_first (hname et 2) (Or.inr (Or.inl (hst et 2 (by omega)))) hk]
+          simp [hst et 2 (by omega)]
+        | some eo =>
+          simp only [Option.map_none, Option.toList, List.nil_append, Option.map_some, List.map_cons,
+            List.map_nil, List.cons_append, foldAdd]
+          rw [addEntry_first (hname et 2) (Or.inr (Or.inl (hst et 2 (by omega)))) hk]
+          simp only [hst et 2 (by omega)]
+          simp only [show ¬ ((2 : Nat) = 1) by decide, if_false, if_true]
+          rw [addEntry_next (hname eo 3) (Or.inr (Or.inr (hst eo 3 (by omega)))) hk]
+          simp [hst eo 3 (by omega)]
+    | some ea =>
+      cases t with
+      | none =>
+        cases o with
+        | none =>
+          simp only [Option.map_none, Option.toList, List.nil_append, Option.map_some, List.map_cons,
+            List.map_nil, List.append_nil, foldAdd]
+          rw [addEntry_first (hname ea 1) (Or.inl (hst ea 1 (by omega))) hk]
+          simp [hst ea 1 (by omega)]
+        | some eo =>
+          simp only [Option.map_none, Option.toList, List.nil_append, Option.map_some, List.map_cons,
+            List.map_nil, List.append_nil, List.cons_append, foldAdd]
+          rw [addEntry_first (hname ea 1) (Or.inl (hst ea 1 (by omega))) hk]
+          simp only [hst ea 1 (by omega), if_true]
+          rw [addEntry_next (hname eo 3) (Or.inr (Or.inr (hst eo 3 (by omega)))) hk]
+          simp [hst eo 3 (by omega)]
+      | some et =>
+        cases o with
+        | none =>
+          simp only [Option.map_none, Option.toList, List.nil_append, Option.map_some, List.map_cons,
+            List.map_nil, List.append_nil, List.cons_append, foldAdd]
+          rw [addEntry_first (hname ea 1) (Or.inl (hst ea 1 (by omega))) hk]
+          simp only [hst ea 1 (by omega), if_true]
+          rw [addEntry_next (hname et 2) (Or.inr (Or.inl (hst et 2 (by omega)))) hk]
+          simp [hst et 2 (by omega)]
+        | some eo =>
+          simp only [Option.map_none, Option.toList, List.nil_append, Option.map_some, List.map_cons,
+            List.map_nil, List.append_nil, List.cons_append, foldAdd]
+          rw [addEntry_first (hname ea 1) (Or.inl (hst ea 1 (by omega))) hk]
+          simp only [hst ea 1 (by omega), if_true]
+          rw [addEntry_next (hname et 2) (Or.inr (Or.inl (hst et 2 (by omega)))) hk]
+          simp only [hst et 2 (by omega), show ¬ ((2 : Nat) = 1) by decide, if_false, if_true]
+          rw [addEntry_next (hname eo 3) (Or.inr (Or.inr (hst eo 3 (by omega)))) hk]
+          simp [hst eo 3 (by omega)]
+
+theorem normVal_key {k : Bytes} {v : Val} {kv : Bytes × Val} (h : normVal k v = some kv) : kv.1 = k := by
+  cases v with
+  | normal e => simp only [normVal, Option.some.injEq] at h; rw [← h]
+  | conflict a t o =>
+    simp only [normVal] at h
+    split at h
+    · cases h
+    · simp only [Option.some.injEq] at h; rw [← h]
+
+theorem foldAdd_flatten : ∀ (sd acc : Dict), (∀ k ∈ keys sd, k ∉ keys acc) → (keys sd).Nodup →
+    (∀ k ∈ keys sd, k.length < 4096) →
+    foldAdd acc ((sd.flatMap fun kv => flattenVal kv.1 kv.2).map normEntry) =
+      .ok (acc ++ sd.filterMap fun kv => normVal kv.1 kv.2)
+  | [], acc, _, _, _ => by simp [foldAdd]
+  | (k, v) :: rest, acc, hdis, hnd, hlen => by
+    have hk : k ∉ keys acc := hdis k (by simp [keys])
+    have hl : k.length < 4096 := hlen k (by simp [keys])
+    have hnd' : (keys rest).Nodup := by
+      simp only [keys, List.map_cons, List.nodup_cons] at hnd; exact hnd.2
+    have hkrest : k ∉ keys rest := by
+      simp only [keys, List.map_cons, List.nodup_cons] at hnd; exact hnd.1
+    simp only [List.flatMap_cons, List.map_append]
+    rw [foldAdd_append, foldAdd_flattenVal v hk hl]
+    simp only
+    have hdis' : ∀ k' ∈ keys rest, k' ∉ keys (acc ++ (normVal k v).toList) := by
+      intro k' hk' hmem
+      simp only [keys, List.map_append, List.mem_append, List.mem_map] at hmem
+      rcases hmem with ⟨kv, hkv, rfl⟩ | ⟨kv, hkv, rfl⟩
+      · exact hdis kv.1 (by simp only [keys, List.map_cons, List.mem_cons]; exact Or.inr hk')
+          (by simp only [keys, List.mem_map]; exact ⟨kv, hkv, rfl⟩)
+      · have : normVal k v = some kv := by
+          cases hnv : normVal k v with
+          | none => rw [hnv] at hkv; simp at hkv
+          | some w => rw [hnv] at hkv; simp at hkv; rw [hkv]
+        rw [normVal_key this] at hk'
+        exact hkrest hk'
+    rw [foldAdd_flatten rest _ hdis' hnd' (fun k' hk' => hlen k' (by simp only [keys, List.map_cons, List.mem_cons]; exact Or.inr hk'))]
+    congr 1
+    simp only [List.filterMap_cons]
+    cases normVal k v with
+    | none => simp
+    | some w => simp
+
+theorem dict_rebuilt (d : Dict) (hnd : (keys d).Nodup) (hlen : ∀ k ∈ keys d, k.length < 4096) :
+    foldAdd [] ((flattenDict d).map normEntry) = .ok ((sortDict d).filterMap fun kv => normVal kv.1 kv.2) := by
+  have hp : (keys (sortDict d)).Perm (keys d) := (sortDict_perm d).map _
+  have := foldAdd_flatten (sortDict d) [] (by intro k _; simp [keys]) (hp.nodup_iff.mpr hnd)
+    (fun k hk => hlen k (hp.subset hk))
+  simpa [flattenDict] using this
+
+theorem serialize_name (e : Entry) (k : Bytes) (st : Nat) : (serialize e k st).name = k := rfl
+
+theorem flattenVal_normal_stage (k : Bytes) (e : Entry) :
+    (flattenVal k (.normal e)).map (fun x => (x.name, entryStage x)) = [(k, 0)] := by
+  simp [flattenVal, stageAt_vals.2.2.2, serialize_stage e k 0 (by omega), serialize_name]
+
+theorem flattenVal_conflict_stages (k : Bytes) (a t o : Option Entry) :
+    (flattenVal k (.conflict a t o)).map (fun x => (x.name, entryStage x)) =
+      (a.map fun _ => (k, 1)).toList ++ (t.map fun _ => (k, 2)).toList ++ (o.map fun _ => (k, 3)).toList := by
+  simp only [flattenVal, stageAt_vals.1, stageAt_vals.2.1, stageAt_vals.2.2.1, List.map_append]
+  congr 1
+  · congr 1
+    · cases a with
+      | none => rfl
+      | some e => simp [serialize_stage e k 1 (by omega), serialize_name]
+    · cases t with
+      | none => rfl
+      | some e => simp [serialize_stage e k 2 (by omega), serialize_name]
+  · cases o with
+    | none => rfl
+    | some e => simp [serialize_stage e k 3 (by omega), serialize_name]
 
 end Dulwich.Index
